@@ -690,7 +690,8 @@ class ScreeningMonitor(Base):
         A_new = np.asarray(A_new)
         Abar = self.direct(J)
         dA = Abar - np.asarray(A_prev)
-        den = np.maximum(np.linalg.norm(A_new, axis=1), 1e-20)
+        # potentials below 1e-12 (dimensionless) are rounding noise: their relative change is not judged
+        den = np.maximum(np.linalg.norm(A_new, axis=1), 1e-12)
         mine = float(np.max(np.linalg.norm(dA, axis=1) / den))
         self.last = dict(mine=mine, reported=float(err), Abar=Abar)
         self.count("iterations_checked")
